@@ -231,7 +231,8 @@ PROPS = {
     ),
     "C16": dict(
         gens=[tlc("c16", "quick"), tlc("c16full", "thorough"), rand("ropes", 1500, "quick"), rand("ropes", 100000, "thorough")],
-        tv_props=["C16"],
+        tv_props=["C16", "DRIFT"],
+        mc=[dict(module="MC_RopeM.tla", cfg="MC_RopeM")],
         must_fire=["C16.definedness_agrees", "C16.no_panic", "C16.unary_observers", "C16.binary_observers", "C16.byte_slices"],
         rule="pairs of rope expressions (new / from / from_iter / add / append / byte-slice / k-th line, nested to depth 2-3) over "
              "pieces containing the empty string, line breaks and 1-4 byte characters; every unary observer, both binary observers in "
